@@ -202,7 +202,7 @@ Definition cfg_obs_ok (c : pcase) : bool :=
 (* C01: the proved validator (Proofs/SimValidator.v) on the implementation's allocation: liveness is
    recomputed by the (proved exact) model over the reads/writes the property text demands, and no
    definition may land on the storage of another value that is live after it *)
-From Avo Require Import Model.Sem Proofs.SimLink Proofs.SimValidator Proofs.AllocCorrect Proofs.AllocSim.
+From Avo Require Import Model.Sem Proofs.SimLink Proofs.SimValidator Proofs.AllocCorrect Proofs.AllocSim Model.Cert.
 Definition prog_regs_of (o : observed) : option prog_regs_t :=
   (fix go (is : list instr) (ss : list (list (option nat))) : option prog_regs_t :=
      match is, ss with
@@ -237,6 +237,38 @@ Definition e2e_cleanup_ok (ce : pcase * e2e_t) : bool :=
     | Some k => deleted_ok (fun x _ => match x with NInstr i => move_is_architectural_noop i | _ => false end) (o_after_bind o) k
     | None => false
     end
+  else true.
+(* AT SCALE (functions of hundreds of instructions): the live sets the implementation computed are used
+   as a certificate (Model/Cert.v).  They must be closed under the dataflow inclusions over the reads,
+   writes and successors of the instructions (so nothing that can still be read is missing), and no
+   definition may land on storage one of them says is live after it; by certified_allocation_preserves
+   (Proofs/SimCert.v) the allocated code then simulates the original.  Class, totality and restricted
+   registers are checked as for small functions. *)
+Definition st_of_obs (l : obs) : st := List.map (fun x => {| lin := ms_of_list (fst x); lout := ms_of_list (snd x) |}) l.
+Definition cert_live_ok (o : observed) : bool :=
+  if reached_liveness o then match prog_regs_of o with Some pr => closed_b (p pr) (st_of_obs (o_live o)) | None => true end else true.
+Definition cert_alloc_ok (rf : regfile) (o : observed) : bool :=
+  if reached_alloc o then
+    match prog_regs_of o with
+    | Some pr => let is := instructions (o_after_zext o) in
+                 alloc_functional (o_alloc o) && alloc_total_kinds rf (o_alloc o) is && never_restricted rf (o_alloc o)
+                 && no_clobber_model (o_alloc o) (st_of_obs (o_live o)) pr
+    | None => true
+    end
+  else true.
+(* the 32-bit-write widening pass on its own (cheap at any size): every instruction after the pass is the
+   model's widening of the instruction before it *)
+Definition zext_ok (rf : regfile) (o : observed) : bool :=
+  if (o_stage o =? 0) || (6 <? o_stage o) then
+    match map_res (zero_extend_instr rf) (instructions (o_after_labels o)) with
+    | OK is2 => list_eqb instr_eqb is2 (instructions (o_after_zext o))
+    | _ => false
+    end
+  else true.
+Definition e2e_cert_ok (ce : pcase * e2e_t) : bool :=
+  let o := snd (fst ce) in let '(err, al, ns, loc) := snd ce in
+  if (err =? 0) && reached_alloc o then
+    match prog_regs_of o with Some pr => closed_b (p pr) (st_of_obs (o_live o)) && no_clobber_model al (st_of_obs (o_live o)) pr | None => true end
   else true.
 Definition pairN_eqb (a b : N * N) : bool := (fst a =? fst b) && (snd a =? snd b).
 Definition e2e_same (ce : pcase * e2e_t) : bool :=
